@@ -48,6 +48,10 @@ type World struct {
 	// CanonI: inline simple pure helpers while rendering
 	ledgerKindDepth int
 	roMemo          map[*ssa.Function]bool
+	nilImplMemo     map[*ssa.Function][]nilImplication
+	nilFilters      *[]string
+	prefixFwdMemo   map[*ssa.Function]*ssa.Call
+	boolNilTab      map[string]nilImplication
 	inlineDeep      bool
 	inlTwin         map[string]string
 	n4Deep          bool
